@@ -42,6 +42,21 @@ CLAIMED['C01'] = dict(
          '(ancestors have smaller depth, decidable checker proved sound); guards are pure (WF8).',
     technique='Coq proof (loop invariants over sorted_groupby) + step-local differential correspondence via vm_compute')
 
+CLAIMED['C05'] = dict(
+    category='proof',
+    text='queue / _queue_event / _select_event and the whole of execute_once are modelled; Coq theorems: insertion '
+         'position (after every entry with due <= t, before every later one: FIFO), queue invariant preserved by every '
+         'operation and every outcome, which event is considered (internal head if due, else external head; nothing '
+         'overtaken), one execute_once removes at most one entry - the one the macro step reports - and inserts only the '
+         'internal events it sent, conservation as a multiset equation for single steps and for arbitrary operation '
+         'sequences, delays respected, a due event makes the step non-empty. Tied to default.py by one-operation '
+         'correspondence cases (queue() and execute_once) evaluated by vm_compute; the queue invariant is also checked '
+         'on every captured implementation state.',
+    design_ref='DESIGN.md section 6 (C05)',
+    note='Trusted: Coq kernel+VM; hand-written model validated differentially on generated cases only; bisect_right on '
+         'a sorted list is modelled as "index after the last key <= x"; integer times and delays.',
+    technique='Coq proof (frame lemmas, sortedness invariant, permutation) + step-local differential correspondence via vm_compute')
+
 NOT_YET = {}
 
 ALL = ['C%02d' % i for i in range(1, 21)]
